@@ -1,4 +1,5 @@
 import Pyxv.Model.Xml
+import Pyxv.Model.Lexer
 /-!
 # Text channels: how the text of one cell reaches the XForm
 
@@ -12,9 +13,11 @@ Mirrors
 * `pyxform/survey_element.py:495-497,505-507`, `survey.py:991-1009` (label / hint / itext value:
   `node(tag, text, toParseString=output_inserted)`) → `mixedChannel`.
 
-Not modelled (the model answers `unsupported`): `replace_with_output` (instance() expressions,
-`parsing/instance_expression.py`) — skipped by the code itself unless the escaped text contains the
-substring `instance(`; relative paths of `_var_repl_function` (the reference table `refs` maps a name
+* `pyxform/parsing/instance_expression.py` `find_boundaries` (token loop over `parse_expression`, the lexer of
+  `Pyxv/Model/Lexer.lean`), `replace_with_output` → `fbStep`, `findBoundaries`, `subRefs`, `spliceAll`,
+  `replaceWithOutput`.
+
+Not modelled: relative paths of `_var_repl_function` (the reference table `refs` maps a name
 to the absolute xpath, which is what the code emits when the context is not inside a repeat).
 -/
 namespace Pyxv.Chan
@@ -93,17 +96,119 @@ inductive Outcome (α : Type) where
   | unsupported (why : String)
 deriving Repr
 
+/-! ## instance() expressions: `parsing/instance_expression.py` -/
+
+/-- loop state of `find_boundaries` (instance_expression.py 24-29) -/
+structure FB where
+  instanceEnter : Bool := false
+  pathEnter : Bool := false
+  predEnter : Bool := false
+  last : Option Lexer.Token := none
+  bounds : List Nat := []
+
+/-- `t.name == "FUNC_CALL" and t.value == "instance("` -/
+def isInstanceCall (t : Lexer.Token) : Bool := t.name == "FUNC_CALL" && t.value == "instance(".toList
+
+/-- one iteration of the token loop of `find_boundaries` (instance_expression.py 31-78) -/
+def fbStep (st : FB) (t : Lexer.Token) : FB :=
+  if !st.instanceEnter && isInstanceCall t then
+    { st with instanceEnter := true, last := some t, bounds := st.bounds ++ [t.start] }
+  else if st.instanceEnter then
+    let lastName : String := match st.last with | some l => l.name | none => ""
+    let lastIsInst : Bool := match st.last with | some l => isInstanceCall l | none => false
+    -- (emit, path_enter, pred_enter) after the `elif instance_enter:` chain
+    let r : Bool × Bool × Bool :=
+      if t.name == "SYSTEM_LITERAL" && lastIsInst then (true, st.pathEnter, st.predEnter)
+      else if lastName == "SYSTEM_LITERAL" && t.name == "CLOSE_PAREN" then (true, st.pathEnter, st.predEnter)
+      else if t.name == "PATH_SEP" && lastName == "CLOSE_PAREN" then (true, true, st.predEnter)
+      else if t.name == "PATH_SEP" && lastName == "XPATH_PRED_END" then (true, true, st.predEnter)
+      else if st.pathEnter then
+        if t.name == "WHITESPACE" then (false, false, st.predEnter)
+        else if t.name != "XPATH_PRED_START" then (true, true, st.predEnter)
+        else (true, false, true)
+      else if st.predEnter then
+        if t.name != "XPATH_PRED_END" then (true, st.pathEnter, true) else (true, st.pathEnter, false)
+      else (false, st.pathEnter, st.predEnter)
+    if r.1 then { st with pathEnter := r.2.1, predEnter := r.2.2, last := some t }
+    else
+      { st with pathEnter := r.2.1, predEnter := r.2.2, instanceEnter := false,
+                bounds := st.bounds ++ [match st.last with | some l => l.stop | none => 0] }
+  else st
+
+/-- `zip(bounds, bounds, strict=False)`: consecutive pairs, an odd last element is dropped -/
+def pairUp : List Nat → List (Nat × Nat)
+  | a :: b :: rest => (a, b) :: pairUp rest
+  | _ => []
+
+/-- `find_boundaries` on the token list of `parse_expression` -/
+def findBoundaries (tokens : List Lexer.Token) : List (Nat × Nat) :=
+  let st := tokens.foldl fbStep {}
+  pairUp (st.bounds ++ (match st.last with | some l => [l.stop] | none => []))
+
+/-- `BRACKETED_TAG_REGEX.sub(lambda m: survey._var_repl_function(m, context), s)` (references become
+    plain xpaths); `none` = PyXFormError.  Fuel: `s.length + 1` suffices. -/
+def subRefs (refs : List (Str × Str)) : Nat → Str → Option Str
+  | 0, _ => none
+  | _ + 1, [] => some []
+  | fuel + 1, '$' :: '{' :: r =>
+    match matchRef r with
+    | some (ls, name, rest) =>
+      match varRepl refs ls name with
+      | some v =>
+        match subRefs refs fuel rest with
+        | some out => some (v ++ out)
+        | none => none
+      | none => none
+    | none =>
+      match subRefs refs fuel ('{' :: r) with
+      | some out => some ('$' :: out)
+      | none => none
+  | fuel + 1, c :: r =>
+    match subRefs refs fuel r with
+    | some out => some (c :: out)
+    | none => none
+
+/-- `node("output", value=v).toxml()` -/
+def outputXml (v : Str) : Str := "<output value=\"".toList ++ escAttr v ++ "\"/>".toList
+
+/-- the position-based replacement with offset tracking (instance_expression.py 122-126) -/
+def spliceAll : List (Nat × Nat × Str × Str) → Int → Str → Str
+  | [], _, x => x
+  | (s, e, o, n) :: rest, off, x =>
+    let i := (Int.ofNat s + off).toNat
+    let j := (Int.ofNat e + off).toNat
+    spliceAll rest (off + Int.ofNat n.length - Int.ofNat o.length) (x.take i ++ n ++ x.drop j)
+
+/-- `replace_with_output(xml_text, context, survey)` -/
+def replaceWithOutput (refs : List (Str × Str)) (x : Str) : Outcome Str :=
+  if x.length ≤ 9 then .ok x else
+  match Lexer.parseExpression x with
+  | none => .unsupported "lexer-table"
+  | some (tokens, _) =>
+    let news := (findBoundaries tokens).mapM fun (se : Nat × Nat) =>
+      let old := (x.drop se.1).take (se.2 - se.1)
+      (subRefs refs (old.length + 1) old).map fun n => (se.1, se.2, old, outputXml n)
+    match news with
+    | none => .pyxformError
+    | some l => .ok (spliceAll l 0 x)
+
+/-- the tail of `insert_output_values` after `replace_with_output` -/
+def finishInsert (refs : List (Str × Str)) (text original x1 : Str) : Outcome (Str × Bool) :=
+  let xmlText : Option Str :=
+    if x1.contains '{' then subOutputs refs (x1.length + 1) x1 else some x1
+  match xmlText with
+  | none => .pyxformError
+  | some x => if x ≠ original then .ok (x, true) else .ok (text, false)
+
 /-- `Survey.insert_output_values(text, context)` → (string, changed) -/
 def insertOutputValues (refs : List (Str × Str)) (text : Str) : Outcome (Str × Bool) :=
   if text = ['-'] then .ok (text, false) else
   let original := escText text
-  -- `replace_with_output` is the identity unless an `instance(` FUNC_CALL token exists
-  if 9 < original.length && isInfix "instance(".toList original then .unsupported "instance-expression" else
-  let xmlText : Option Str :=
-    if original.contains '{' then subOutputs refs (original.length + 1) original else some original
-  match xmlText with
-  | none => .pyxformError
-  | some x => if x ≠ original then .ok (x, true) else .ok (text, false)
+  match replaceWithOutput refs original with
+  | .ok x1 => finishInsert refs text original x1
+  | .pyxformError => .pyxformError
+  | .reparseError => .reparseError
+  | .unsupported w => .unsupported w
 
 /-- `cloneNode(deep=False)` of a parsed child: elements lose their children, text becomes a stock
     `minidom.Text` -/
